@@ -257,6 +257,26 @@ def main():
             print(verus["stderr"][-3000:] if not verus["json_ok"] or verus["compile_error"] else "")
             return
         diags = parse_diagnostics(verus["stderr"], CRATE + ".rs", starts) if verus["stderr"] else []
+        if (verus["compile_error"] or not verus["json_ok"]) and weave_report is not None:
+            # the edited text of a changed function may be outside what Verus accepts with the existing annotations:
+            # weave exactly those functions as assumed (obligation undecided) so that everything else is still decided
+            changed_fns = set(it_["item"].split("::")[-1] for it_ in weave_report.get("items", []) if it_.get("kind") == "fn" and not it_.get("identical_to_annotated_baseline", True))
+            blame = set(f for d in diags for f in d["fns"]) & changed_fns
+            if blame:
+                try:
+                    W.FORCE_DEGRADE = set(blame)
+                    W._repo_cache.clear()
+                    weave_report = W.weave_unit(REPO, verus_src, prop["unit"], unit_path, os.path.join(wd, "extract.json"))
+                    unit_text = open(unit_path).read()
+                    starts = fn_starts(unit_text)
+                    scan = assumption_scan(unit_text)
+                    first_heads = [d["head"] for d in diags][:3]
+                    verus = run_verus(unit_path, prop.get("verify_modules"), rl, seed)
+                    diags = parse_diagnostics(verus["stderr"], CRATE + ".rs", starts) if verus["stderr"] else []
+                    notes.append("edited function(s) %s not processable by Verus in place (%s); woven as assumed, obligation undecided" % (", ".join(sorted(blame)), "; ".join(first_heads)))
+                except (W.WeaveError, rustlex.LexError) as e:
+                    undecided.append("re-weave with degraded functions: " + str(e))
+                # FORCE_DEGRADE stays set for the vacuity units of this run (one process per check)
         if verus["compile_error"] or not verus["json_ok"]:
             heads = [d["head"] + " @" + ",".join(d["fns"]) for d in diags][:8]
             undecided.append("verus could not process the unit (edited code outside the supported subset, or a renamed item): " + "; ".join(heads))
